@@ -3,7 +3,7 @@
 # machinery: apply to /repo, run the property's check, undo straight afterwards, refresh meta.json:check_result.
 cd /verif
 PROPS="$@"
-for T in seeded/*/; do
+for T in /verif/seeded/*/; do
   id=$(basename $T); prop=${id%-*}
   if [ -n "$PROPS" ] && ! echo " $PROPS " | grep -q " $prop "; then continue; fi
   if ! git -C /repo apply --check $T/patch.diff 2>/dev/null; then echo "$id: patch no longer applies"; continue; fi
